@@ -321,12 +321,30 @@ func TestMetrics(t *testing.T) {
 					ctx, cancel = context.WithDeadline(context.Background(), time.Now().Add(-50*time.Millisecond))
 				}
 				before := c.sends()
+				const closeAttempts = "bmc_command_attempts_total{command=Close Session}"
+				attemptsBefore := gather()[closeAttempts]
 				err := s.s.Close(ctx)
 				cancel()
 				s.closed = true
 				m.add("bmc_sessions_open", "", -1)
-				m.add("bmc_command_attempts_total", "command=Close Session", 1)
+				issued := true
+				if doneCtx != "" && gather()[closeAttempts] == attemptsBefore {
+					// with a context that is already done the library may return its
+					// error without issuing Close Session at all: then no call was made
+					// and neither an attempt nor a failure is due
+					issued = false
+				} else {
+					m.add("bmc_command_attempts_total", "command=Close Session", 1)
+				}
 				switch {
+				case doneCtx != "" && !issued:
+					if err == nil {
+						t.Fatalf("Close with a context that is already done (%s) returned nil", doneCtx)
+					}
+					if n := c.sends() - before; n != 0 {
+						t.Fatalf("Close with a context that is already done (%s) transmitted %d datagrams", doneCtx, n)
+					}
+					doneCloses++
 				case doneCtx != "":
 					if err == nil {
 						t.Fatalf("Close with a context that is already done (%s) returned nil", doneCtx)
